@@ -724,6 +724,10 @@ func judgeWritten(g *graph, c *Case, wr *written) (fa facts, out []failure) {
 			continue
 		}
 		i, isItem := itemOf[n]
+		if isItem && i < len(wr.roles) && wr.roles[i] != "" {
+			// the part the object played in the write order belongs to the class of the defect
+			cls += ":" + wr.roles[i]
+		}
 		if n == metaNum && plainMeta {
 			// exempt from encryption: must be readable as it is
 			exempt = append(exempt, [2]int64{o.Offset, o.End})
@@ -740,6 +744,9 @@ func judgeWritten(g *graph, c *Case, wr *written) (fa facts, out []failure) {
 				what = g.items[i].name
 			}
 			fail("independent-decrypt-error:"+cls, "%s %d %d: %v", what, o.Num, o.Gen, err)
+			if isItem && o.Gen == int(wr.refs[i].Generation()) {
+				delete(itemOf, n) // found, but unreadable: not "missing"
+			}
 			continue
 		}
 		if o.InObjStm == 0 {
